@@ -139,25 +139,37 @@ IndexOf(s, c, i) == IF i > Len(s) THEN 0 ELSE IF s[i] = c THEN i ELSE IndexOf(s,
 RECURSIVE Pow(_, _)
 Pow(b, e) == IF e = 0 THEN 1 ELSE b * Pow(b, e - 1)
 
-\* f64::from_str on plain decimals whose value is dyadic; other spellings are left to "unk"
+\* f64::from_str:  Sign? ( 'inf' | 'infinity' | 'nan' | Number ),  Number ::= ( Digit+ | Digit+ '.' Digit* | Digit* '.' Digit+ ) ( 'e' Sign? Digit+ )?
+\* (letters in either case, no blanks).  Values that are not dyadic or too long for the model are "unk"; texts outside the grammar are "none".
+LowerA(c) == IF c >= 65 /\ c <= 90 THEN c + 32 ELSE c
 ParseReal(s) ==
   LET neg  == s # <<>> /\ s[1] = 45
       body == IF s # <<>> /\ s[1] \in {45, 43} THEN Tail(s) ELSE s
-      dot  == IndexOf(body, 46, 1)
-      ip   == IF dot = 0 THEN body ELSE SubSeq(body, 1, dot - 1)
-      fp   == IF dot = 0 THEN <<>> ELSE SubSeq(body, dot + 1, Len(body))
-  IN IF body = <<>> \/ ~(\A i \in 1..Len(body) : IsDigit(body[i]) \/ body[i] = 46) THEN
-          (IF \E i \in 1..Len(body) : body[i] \in {101, 69, 105, 73, 110, 78} THEN XUnk ELSE XNone)   \* e E i I n N: exponents, inf, nan
-     ELSE IF dot # 0 /\ IndexOf(fp, 46, 1) # 0 THEN XNone
-     ELSE IF ip = <<>> \/ (dot # 0 /\ fp = <<>>) THEN XUnk        \* ".5" and "5." are accepted by Rust; not modelled
-     ELSE IF Len(ip) > 5 \/ Len(fp) > 3 THEN XUnk
-     ELSE LET num == DigitsVal(ip, 0) * Pow(10, Len(fp)) + DigitsVal(fp, 0)
-              den == Pow(10, Len(fp))
-              \* num/den is dyadic iff den / gcd has only factor 2: reduce the factors of 5
-              f5  == IF Len(fp) = 0 THEN 1 ELSE Pow(5, Len(fp))
-          IN IF num % f5 # 0 THEN XUnk
-             ELSE IF num = 0 /\ neg THEN NZero
-             ELSE LET r == RealRes((IF neg THEN -1 ELSE 1) * (num \div f5), den \div f5) IN r
+      low  == [i \in 1..Len(body) |-> LowerA(body[i])]
+      epos == IndexOf(low, 101, 1)
+      mant == IF epos = 0 THEN body ELSE SubSeq(body, 1, epos - 1)
+      ex0  == IF epos = 0 THEN <<>> ELSE SubSeq(body, epos + 1, Len(body))
+      eneg == ex0 # <<>> /\ ex0[1] = 45
+      exd  == IF ex0 # <<>> /\ ex0[1] \in {45, 43} THEN Tail(ex0) ELSE ex0
+      dot  == IndexOf(mant, 46, 1)
+      ip   == IF dot = 0 THEN mant ELSE SubSeq(mant, 1, dot - 1)
+      fp   == IF dot = 0 THEN <<>> ELSE SubSeq(mant, dot + 1, Len(mant))
+      Digits(x) == \A i \in 1..Len(x) : IsDigit(x[i])
+  IN IF low \in {<<105, 110, 102>>, <<105, 110, 102, 105, 110, 105, 116, 121>>} THEN (IF neg THEN NInf ELSE PInf)
+     ELSE IF low = <<110, 97, 110>> THEN NaN            \* '-nan' sets the sign bit: the same value (C16), the harness does not look at the bit
+     ELSE IF ~Digits(ip) \/ ~Digits(fp) \/ (ip = <<>> /\ fp = <<>>) THEN XNone
+     ELSE IF epos # 0 /\ (exd = <<>> \/ ~Digits(exd)) THEN XNone
+     ELSE IF Len(exd) > 1 \/ Len(ip) > 5 \/ Len(fp) > 3 THEN XUnk
+     ELSE LET e == IF exd = <<>> THEN 0 ELSE (IF eneg THEN -DigitsVal(exd, 0) ELSE DigitsVal(exd, 0))
+              up == IF e > 0 THEN e ELSE 0
+              dn == Len(fp) + (IF e < 0 THEN -e ELSE 0)
+          IN IF Len(ip) + Len(fp) + up > 8 \/ dn > 4 THEN XUnk
+             ELSE LET num == (DigitsVal(ip, 0) * Pow(10, Len(fp)) + DigitsVal(fp, 0)) * Pow(10, up)
+                      \* num / 10^dn is dyadic iff the factors of 5 of the denominator divide num
+                      f5  == Pow(5, dn)
+                  IN IF num % f5 # 0 THEN XUnk
+                     ELSE IF num = 0 /\ neg THEN NZero
+                     ELSE RealRes((IF neg THEN -1 ELSE 1) * (num \div f5), Pow(2, dn))
 
 RECURSIVE DigitsOf(_)
 DigitsOf(n) == IF n < 10 THEN <<48 + n>> ELSE DigitsOf(n \div 10) \o <<48 + (n % 10)>>
